@@ -56,6 +56,14 @@ class CallMixin:
       if d is not None:
         return d
       raise Unsupported(f'attribute {name} on {v.cls}')
+    if isinstance(v, VSuper):
+      for b in v.cls_node.bases:
+        bn = b.id if isinstance(b, ast.Name) else (b.attr if isinstance(b, ast.Attribute) else None)
+        if bn:
+          mod, cls, m = self.world.method(bn, name)
+          if m is not None:
+            return VFn(name, node=m, module=mod, cls=cls, bound=v.obj)
+      raise Unsupported(f'super().{name}')
     if isinstance(v, VModule):
       return self.module_attr(v, name)
     if isinstance(v, VClass):
